@@ -955,6 +955,9 @@ class TranscriptToGeneJoiner:
             self.gene_strands[gene_id] = self.gene_info.gene_strands[gene_id]
             self.gene_regions[gene_id] = self.gene_info.get_gene_regions()[gene_id]
         for transcript_id in self.gene_info.gene_id_map.keys():
+            if transcript_id not in self.gene_info.all_isoforms_introns:
+                # transcript record without exons: GeneInfo skips it with a warning, it can never become a model
+                continue
             gene_id = self.gene_info.gene_id_map[transcript_id]
             self.gene_introns[gene_id].update(self.gene_info.all_isoforms_introns[transcript_id])
             self.gene_to_transcripts[gene_id].add(transcript_id)
